@@ -6,9 +6,13 @@
                     S  raw SAX events of a second, plain expat parser configured like libstrophe's
                        (XML_ParserCreate_MM(NULL, NULL, &namespace_sep)), fed the very same chunks
                     X  libxml2 SAX2 events of the whole document (cuts/resets ignored)
-                    lower-case l/s: additionally a "/" token after every feed (delivery timing)
+                    D  like S, with expat's reparse deferral switched off (XML_SetReparseDeferralEnabled
+                       looked up with dlsym; "NOAPI" if this libexpat has no such function)
+                    lower-case l/s/d: additionally a "/" token after every feed (delivery timing)
              cuts   "-" | "*" (every byte) | p1,p2,...   byte offsets where a new chunk starts
              resets "-" | p1,p2,...  offsets (chunk boundaries, 0..len) at which parser_reset is called
+                    | @<hexname>  like conn.c/event.c: when a top-level stanza with this local name has been
+                      delivered, parser_reset is called after the feed in progress has returned
    output: tokens separated by one blank (all strings hex, "-" = empty)
              L: O(name;k=v,k=v)   stream start, raw attribute names as handed to the callback, sorted
                 Z(tree)           stanza; tree = e(name|k=v,...|children) | t(text) | u()
@@ -21,6 +25,7 @@
 #include "parser.h"
 #include "hash.h"
 #include <expat.h>
+#include <dlfcn.h>
 #include <libxml/parser.h>
 #include <libxml/parserInternals.h>
 
@@ -49,6 +54,11 @@ static void ob_hex(const unsigned char *b, size_t n)
 }
 static void ob_hexs(const char *s) { if (!s) ob_puts("NULL"); else ob_hex((const unsigned char *)s, strlen(s)); }
 static void ob_sep(void) { if (ob_len) ob_putc(' '); }
+
+/* ---- restart on a trigger stanza (what conn_prepare_reset + the event loop do) ---- */
+static const char *trig = NULL;   /* local name, NUL terminated */
+static int trig_pending = 0;
+static int sx_depth = 0;
 
 /* ---- sorted attribute lists ---- */
 typedef struct { const char *k, *v; } kv_t;
@@ -116,23 +126,40 @@ static void cb_stanza(xmpp_stanza_t *st, void *ud)
 {
     (void)ud;
     ob_sep(); ob_puts("Z("); render(st); ob_putc(')');
+    if (trig && st->type == XMPP_STANZA_TAG && st->data && strcmp(st->data, trig) == 0) trig_pending = 1;
 }
 
 /* ---- plain expat side ---- */
 static void XMLCALL sx_start(void *ud, const XML_Char *n, const XML_Char **a)
 {
     (void)ud;
+    sx_depth++;
     ob_sep(); ob_puts("s("); ob_hexs(n); ob_putc(';'); put_attr_array((const char **)a, 0); ob_putc(')');
 }
 static void XMLCALL sx_end(void *ud, const XML_Char *n)
 {
     (void)ud;
+    sx_depth--;
     ob_sep(); ob_puts("e("); ob_hexs(n); ob_putc(')');
+    if (trig && sx_depth == 1) {
+        const char *l = strchr(n, namespace_sep);
+        l = l ? l + 1 : n;
+        if (strcmp(l, trig) == 0) trig_pending = 1;
+    }
 }
 static void XMLCALL sx_chars(void *ud, const XML_Char *s, int len)
 {
     (void)ud;
     ob_sep(); ob_puts("c("); ob_hex((const unsigned char *)s, len < 0 ? 0 : (size_t)len); ob_putc(')');
+}
+typedef XML_Bool (*deferral_fn)(XML_Parser, XML_Bool);
+static int set_deferral(XML_Parser p, int on)
+{
+    static deferral_fn fn = NULL; static int looked = 0;
+    if (!looked) { fn = (deferral_fn)dlsym(RTLD_DEFAULT, "XML_SetReparseDeferralEnabled"); looked = 1; }
+    if (!fn) return 0;
+    fn(p, on ? XML_TRUE : XML_FALSE);
+    return 1;
 }
 static void sx_install(XML_Parser p)
 {
@@ -141,11 +168,20 @@ static void sx_install(XML_Parser p)
 }
 
 /* ---- libxml2 side ---- */
+static void ob_hexraw(const unsigned char *b, size_t n)
+{
+    if (n) ob_hex(b, n);
+}
+/* expat's spelling of a qualified name: URI SEP local, or just local */
 static void put_q(const xmlChar *uri, const xmlChar *local)
 {
-    if (uri && uri[0]) { ob_hex(uri, strlen((const char *)uri)); { unsigned char c = (unsigned char)namespace_sep; static const char hx[] = "0123456789abcdef"; ob_putc(hx[c >> 4]); ob_putc(hx[c & 15]); } }
-    if (uri && uri[0]) { if (local[0]) { static const char hx[] = "0123456789abcdef"; const unsigned char *p = local; ob_need(2 * strlen((const char *)local)); for (; *p; p++) { ob[ob_len++] = hx[*p >> 4]; ob[ob_len++] = hx[*p & 15]; } ob[ob_len] = 0; } }
-    else ob_hexs((const char *)local);
+    if (uri && uri[0]) {
+        unsigned char sep = (unsigned char)namespace_sep;
+        ob_hexraw(uri, strlen((const char *)uri));
+        ob_hexraw(&sep, 1);
+        ob_hexraw(local, strlen((const char *)local));
+    } else
+        ob_hexs((const char *)local);
 }
 static void lx_start(void *ctx, const xmlChar *local, const xmlChar *prefix, const xmlChar *uri, int nns,
                      const xmlChar **nss, int nattr, int ndef, const xmlChar **attrs)
@@ -250,9 +286,14 @@ int main(void)
         if (nf < 3) f[2] = "-";
         if (nf < 4) f[3] = "-";
         mode = f[0][0];
-        timing = (mode == 'l' || mode == 's');
+        int nodefer = 0;
+        char *trigbuf = NULL;
+        timing = (mode == 'l' || mode == 's' || mode == 'd');
         if (mode == 'l') mode = 'L';
         if (mode == 's') mode = 'S';
+        if (mode == 'd') mode = 'D';
+        if (mode == 'D') { mode = 'S'; nodefer = 1; }
+        trig = NULL; trig_pending = 0; sx_depth = 0;
         doc = vh_unhex(f[1], &len);
         if (mode == 'X') {
             run_libxml2(doc, len);
@@ -260,17 +301,29 @@ int main(void)
             continue;
         }
         cuts = parse_list(f[2], len, &ncuts, 1);
-        res = parse_list(f[3], len, &nres, 0);
+        if (f[3][0] == '@') {
+            size_t tl;
+            unsigned char *t = vh_unhex(f[3] + 1, &tl);
+            trigbuf = malloc(tl + 1); memcpy(trigbuf, t, tl); trigbuf[tl] = 0; free(t);
+            trig = trigbuf;
+            res = parse_list("-", len, &nres, 0);
+        } else
+            res = parse_list(f[3], len, &nres, 0);
         if (mode == 'L') {
             lp = parser_new(ctx, cb_start, cb_end, cb_stanza, NULL);
         } else {
             xp = XML_ParserCreate_MM(NULL, NULL, &namespace_sep);
             sx_install(xp);
+            if (nodefer && !set_deferral(xp, 0)) {
+                puts("NOAPI"); fflush(stdout);
+                XML_ParserFree(xp); free(doc); free(cuts); free(res); free(trigbuf);
+                continue;
+            }
         }
         pos = 0;
         if (in_list(res, nres, 0)) {
             ob_sep(); ob_putc('R');
-            if (lp) parser_reset(lp); else { XML_ParserReset(xp, NULL); sx_install(xp); }
+            if (lp) parser_reset(lp); else { XML_ParserReset(xp, NULL); sx_install(xp); if (nodefer) set_deferral(xp, 0); }
         }
         for (b = 1; b <= len && !failed; b++) {
             int is_cut = (b == len) || in_list(cuts, ncuts, b), is_res = in_list(res, nres, b);
@@ -294,16 +347,17 @@ int main(void)
                 k++;
                 if (timing) { ob_sep(); ob_putc('/'); }
             }
-            if (is_res) {
+            if (is_res || trig_pending) {
+                trig_pending = 0; sx_depth = 0;
                 ob_sep(); ob_putc('R');
-                if (lp) parser_reset(lp); else { XML_ParserReset(xp, NULL); sx_install(xp); }
+                if (lp) parser_reset(lp); else { XML_ParserReset(xp, NULL); sx_install(xp); if (nodefer) set_deferral(xp, 0); }
             }
         }
         if (lp) parser_free(lp);
         if (xp) XML_ParserFree(xp);
         puts(ob_len ? ob : "-");
         fflush(stdout);
-        free(doc); free(cuts); free(res);
+        free(doc); free(cuts); free(res); free(trigbuf);
     }
     xmpp_ctx_free(ctx);
     return 0;
